@@ -166,12 +166,15 @@ LineBodies == {
 \* one memoised result used both right-trimmed and untrimmed at the same position (C07 / C10):
 \* nonterminal 2 = M -> a | a a ; P -> RTrim(M) b | M " " b   (both orders, each trim mode)
 SPt == Tm(32)
+SingleT(e) == N("single", "", <<e>>, 0, "")
 TrimShare ==
   LET m == AnyE(<<A, SeqE("of", <<A, A>>)>>)
+      st(mode) == SeqE("of", <<SingleT(RTrim(SeqE("of", <<Ref(2)>>), mode)), Bt>>)
       t(mode) == SeqE("of", <<RTrim(Ref(2), mode), Bt>>)
       u == SeqE("of", <<Ref(2), SPt, Bt>>)
       v == SeqE("of", <<Ref(2), Bt>>)
   IN {<<AnyE(<<t(mode), u>>), m>> : mode \in {"spaces", "nl"}} \cup {<<AnyE(<<u, t(mode)>>), m>> : mode \in {"spaces", "nl"}} \cup
+     {<<AnyE(<<st(mode), u>>), A>> : mode \in {"spaces", "nl"}} \cup {<<AnyE(<<u, st(mode), v>>), A>> : mode \in {"spaces"}} \cup
      {<<AnyE(<<v, t("none")>>), m>>, <<AnyE(<<SeqE("of", <<LTrim(Ref(2), "spaces"), Bt>>), SeqE("of", <<SPt, Ref(2), Bt>>)>>), m>>}
 
 \* combinator.Single / SuppressError over memoised results that other alternatives use as well
